@@ -221,7 +221,9 @@ func c07Insert(c *Ctx, p *Prog) {
 		k, isc := constOf(bo.Y)
 		return isc && k == plus
 	}
-	var okMove, okCopy, okLen bool
+	var okMove, okLen bool
+	var sawCopy, dstKnown, srcKnown bool
+	var dstOff, srcPlus int64
 	allInstrs(fn, func(in ssa.Instruction) {
 		switch x := in.(type) {
 		case *ssa.Store:
@@ -257,22 +259,63 @@ func c07Insert(c *Ctx, p *Prog) {
 			}
 		case *ssa.Call:
 			if bi, ok := x.Call.Value.(*ssa.Builtin); ok && bi.Name() == "copy" {
-				dst, ok1 := x.Call.Args[0].(*ssa.Slice)
-				src, ok2 := x.Call.Args[1].(*ssa.Slice)
-				if ok1 && ok2 && dst.Low != nil && src.Low != nil {
-					dl, okd := stripConv(dst.Low).(*ssa.BinOp)
-					okDst := okd && dl.Op == token.ADD && isBufIx(dl.X, 0)
-					if okDst {
-						k, isc := constOf(dl.Y)
-						okDst = isc && k == 1
+				sawCopy = true
+				// destination: moves[bufIx(ply)+k:]
+				if dst, ok := x.Call.Args[0].(*ssa.Slice); ok && dst.Low != nil {
+					if isBufIx(dst.Low, 0) {
+						dstOff, dstKnown = 0, true
+					} else if dl, okd := stripConv(dst.Low).(*ssa.BinOp); okd && dl.Op == token.ADD && isBufIx(dl.X, 0) {
+						if k, isc := constOf(dl.Y); isc {
+							dstOff, dstKnown = k, true
+						}
 					}
-					okCopy = okDst && isBufIx(src.Low, 1)
+				}
+				// source: moves[bufIx(ply+k):…], directly or through a helper returning the line stored for a ply
+				switch src := x.Call.Args[1].(type) {
+				case *ssa.Slice:
+					if src.Low != nil {
+						for k := int64(0); k <= 2; k++ {
+							if isBufIx(src.Low, k) {
+								srcPlus, srcKnown = k, true
+							}
+						}
+					}
+				case *ssa.Call:
+					h := src.Call.StaticCallee()
+					if h != nil && isOwn(h) && h.Blocks != nil && len(h.Params) >= 2 {
+						as := resultAssignments(h, 0)
+						if len(as) == 1 {
+							if sl, ok := as[0].Val.(*ssa.Slice); ok && sl.Low != nil {
+								if call, ok := stripConv(sl.Low).(*ssa.Call); ok && objName(calleeObj(call)) == "search.bufIx" {
+									for pi, par := range h.Params {
+										if stripConv(call.Call.Args[0]) == ssa.Value(par) && pi < len(src.Call.Args) {
+											a := stripConv(src.Call.Args[pi])
+											if a == ssa.Value(ply) {
+												srcPlus, srcKnown = 0, true
+											} else if bo, ok := a.(*ssa.BinOp); ok && bo.Op == token.ADD && stripConv(bo.X) == ssa.Value(ply) {
+												if k, isc := constOf(bo.Y); isc {
+													srcPlus, srcKnown = k, true
+												}
+											}
+										}
+									}
+								}
+							}
+						}
+					}
 				}
 			}
 		}
 	})
 	c.Check(okMove, rule, "insert#move-at-own-slot", fn.Pos(), "insert stores m at moves[bufIx(ply)]")
-	c.Check(okCopy, rule, "insert#copy-child-line", fn.Pos(), "insert copies the child's line from bufIx(ply+1) to bufIx(ply)+1")
+	switch {
+	case !sawCopy || !dstKnown || !srcKnown:
+		c.Undec(rule, "insert#copy-child-line", fn.Pos(), "the copy of the child's line is not of a recognised form (copy call: %v, destination offset known: %v, source ply known: %v)", sawCopy, dstKnown, srcKnown)
+	case dstOff == 1 && srcPlus == 1:
+		c.Ok(rule, "insert#copy-child-line", fn.Pos(), "insert copies the child's line from bufIx(ply+1) to bufIx(ply)+1")
+	default:
+		c.Fail(rule, "insert#copy-child-line", fn.Pos(), "insert copies the line stored for ply+%d to bufIx(ply)+%d; the child's line (ply+1) belongs behind the move at bufIx(ply)+1", srcPlus, dstOff)
+	}
 	c.Check(okLen, rule, "insert#length", fn.Pos(), "insert records depth[ply] = depth[ply+1] + 1")
 	// buffer sizes
 	pk := p.Pkg("search")
